@@ -199,4 +199,108 @@ theorem wkt_roundtrip (d : Nat) (pts : List Pt) (hne : pts ≠ []) :
   rw [List.mapM_map]
   exact h
 
+/-! ### POLYGON texts -/
+
+theorem splitOn2_of_not_mem (a b : Char) (s : Str) (h : a ∉ s) : splitOn2 a b s = [s] := by
+  induction s using splitOn2.induct a b with
+  | case1 => rfl
+  | case2 x => rfl
+  | case3 x y r hc ih =>
+    exact absurd hc.1 (fun e => h (by simp [e]))
+  | case4 x y r hc hnil ih =>
+    have := ih (fun hm => h (by simp [hm]))
+    rw [hnil] at this
+    exact absurd this (by simp)
+  | case5 x y r hc hd tl heq ih =>
+    have := ih (fun hm => h (by simp [hm]))
+    rw [heq] at this
+    simp only [List.cons.injEq] at this
+    unfold splitOn2
+    simp only [hc, ↓reduceIte, heq]
+    rw [this.1, this.2]
+
+theorem splitOn2_append (a b : Char) (p r : Str) (h : a ∉ p) : splitOn2 a b (p ++ a :: b :: r) = p :: splitOn2 a b r := by
+  induction p with
+  | nil => simp [splitOn2]
+  | cons x p' ih =>
+    have hx : x ≠ a := fun e => h (by simp [e])
+    have ih' := ih (fun hm => h (by simp [hm]))
+    obtain ⟨y, rest, hy⟩ : ∃ y rest, p' ++ a :: b :: r = y :: rest := by
+      cases p' with
+      | nil => exact ⟨a, b :: r, rfl⟩
+      | cons z zs => exact ⟨z, zs ++ a :: b :: r, rfl⟩
+    rw [List.cons_append, hy]
+    have hc : ¬ (x = a ∧ y = b) := fun c => hx c.1
+    conv => lhs; unfold splitOn2
+    simp only [hc, ↓reduceIte]
+    rw [← hy, ih']
+
+/-- a polygon in the canonical layout `POLYGON((x y,x y,…))` (one ring), as other tools write it -/
+def toPolyWKT (ec : Char) (d : Nat) (pts : List Pt) : Str :=
+  "POLYGON((".toList ++ joinChar ',' (pts.map (vertexStr ec d)) ++ "))".toList
+
+theorem wktCoordsPoly_toPolyWKT (ec : Char) (hec : isExpChar ec = true) (d : Nat) (pts : List Pt) (hne : pts ≠ []) :
+    wktCoordsPoly (toPolyWKT ec d pts) = .ok (pts.map (vertexStr ec d)) := by
+  have hc : '(' ≠ ec ∧ ')' ≠ ec ∧ ',' ≠ ec := by rcases expChar_cases hec with rfl | rfl <;> decide
+  have hv : ∀ v ∈ pts.map (vertexStr ec d), '(' ∉ v ∧ ')' ∉ v ∧ ',' ∉ v := by
+    intro v hv
+    simp only [List.mem_map] at hv
+    obtain ⟨p, _, rfl⟩ := hv
+    exact ⟨vertexStr_avoids ec d p _ (by decide) (by decide) hc.1 (by decide),
+      vertexStr_avoids ec d p _ (by decide) (by decide) hc.2.1 (by decide),
+      vertexStr_avoids ec d p _ (by decide) (by decide) hc.2.2 (by decide)⟩
+  have hb1 : '(' ∉ joinChar ',' (pts.map (vertexStr ec d)) ++ "))".toList := by
+    intro hm
+    rcases List.mem_append.1 hm with hm | hm
+    · rcases mem_joinChar hm with h | ⟨v, hv', hx⟩
+      · exact absurd h (by decide)
+      · exact (hv v hv').1 hx
+    · revert hm; decide
+  have hb2 : ')' ∉ joinChar ',' (pts.map (vertexStr ec d)) := by
+    intro hm
+    rcases mem_joinChar hm with h | ⟨v, hv', hx⟩
+    · exact absurd h (by decide)
+    · exact (hv v hv').2.1 hx
+  unfold wktCoordsPoly toPolyWKT
+  have e1 : "POLYGON((".toList ++ joinChar ',' (pts.map (vertexStr ec d)) ++ "))".toList
+      = "POLYGON".toList ++ '(' :: '(' :: (joinChar ',' (pts.map (vertexStr ec d)) ++ "))".toList) := by
+    have : "POLYGON((".toList = "POLYGON".toList ++ ['(', '('] := by decide
+    rw [this]; simp
+  rw [e1, splitOn2_append _ _ _ _ (by decide), splitOn2_of_not_mem _ _ _ hb1]
+  simp only [nth, List.getElem?_cons_succ, List.getElem?_cons_zero, bind, Except.bind, pure, Except.pure]
+  have e2 : joinChar ',' (pts.map (vertexStr ec d)) ++ "))".toList = joinChar ',' (pts.map (vertexStr ec d)) ++ ')' :: ')' :: [] := rfl
+  rw [e2, splitOn2_append _ _ _ _ hb2]
+  simp only [List.getElem?_cons_zero]
+  rw [splitOnChar_joinChar _ _ (by simpa using hne) (fun v hv' => (hv v hv').2.2)]
+
+theorem toUpper_toPolyWKT (d : Nat) (pts : List Pt) : toUpper (toPolyWKT 'e' d pts) = toPolyWKT 'E' d pts := by
+  unfold toUpper toPolyWKT
+  rw [List.map_append, List.map_append, map_joinChar, List.map_map]
+  have e1 : "POLYGON((".toList.map Char.toUpper = "POLYGON((".toList := by decide
+  have e2 : "))".toList.map Char.toUpper = "))".toList := by decide
+  have e3 : Char.toUpper ',' = ',' := by decide
+  rw [e1, e2, e3]
+  congr 3
+  apply List.map_congr_left
+  intro p _
+  simp only [Function.comp, vertexStr, List.map_append, toUpper_reprFloat]
+  rfl
+
+/-- a one-ring polygon text is parsed as the vertices of its ring -/
+theorem polygon_parse (d : Nat) (pts : List Pt) (hne : pts ≠ []) :
+    parseWkt (toPolyWKT 'e' d pts) = .ok (pts.map (expVertex d)) := by
+  unfold parseWkt
+  rw [toUpper_toPolyWKT]
+  have htake : ((toPolyWKT 'E' d pts).take 4 == "POLY".toList) = true := by
+    unfold toPolyWKT
+    have e : "POLYGON((".toList = ['P', 'O', 'L', 'Y'] ++ "GON((".toList := by decide
+    have e2 : "POLY".toList = ['P', 'O', 'L', 'Y'] := by decide
+    rw [e, e2]
+    simp
+  simp only [htake, ↓reduceIte, wktCoordsPoly_toPolyWKT 'E' (by decide) d pts hne, bind, Except.bind]
+  have h := mapM_ok (fun p : Pt => parseVertex (vertexStr 'E' d p)) (expVertex d) pts
+    (fun p _ => parseVertex_vertexStr 'E' (by decide) d p)
+  rw [List.mapM_map]
+  exact h
+
 end TV.TextIO
